@@ -68,7 +68,9 @@ func runC45(c *core.Ctx) {
 		}
 	}
 	c.Sites += nFn
-	sort.Slice(tlist, func(i, j int) bool { return tlist[i].Obj().Pkg().Path()+tlist[i].Obj().Name() < tlist[j].Obj().Pkg().Path()+tlist[j].Obj().Name() })
+	sort.Slice(tlist, func(i, j int) bool {
+		return tlist[i].Obj().Pkg().Path()+tlist[i].Obj().Name() < tlist[j].Obj().Pkg().Path()+tlist[j].Obj().Name()
+	})
 	for _, nt := range tlist {
 		st, ok := nt.Underlying().(*types.Struct)
 		name := strings.TrimPrefix(nt.Obj().Pkg().Path(), core.Mod+"/") + "." + nt.Obj().Name()
